@@ -1,7 +1,7 @@
 #!/bin/bash
 # seedcheck.sh <seed dir> <prop...> : applies a seeded change to /repo (patch_current.diff if present — the
 # same change rebased onto the fix commits — else patch.diff), runs the quick checks, undoes it straight afterwards.
-d="$1"; shift
+d="$(cd "$1" && pwd)"; shift
 cd /verif
 patch="$d/patch.diff"; [ -f "$d/patch_current.diff" ] && patch="$d/patch_current.diff"
 [ -n "$(git -C /repo status --porcelain --untracked-files=no)" ] && { echo "/repo not clean"; exit 4; }
